@@ -316,6 +316,8 @@ def validate_evidence(ev):
 
 
 def main():
+    if len(sys.argv) > 1 and sys.argv[1] == "--setup":
+        return setup(sys.argv[2:])
     ap = argparse.ArgumentParser()
     ap.add_argument("prop")
     ap.add_argument("--tier", default=os.environ.get("VERIF_TIER", "quick"), choices=["quick", "thorough"])
@@ -423,6 +425,9 @@ def main():
                     "signature": "%s:%s:%s:%s" % (st.crash_property or prop, found[0], re.sub(r"0x[0-9a-f]+|\d+", "N", found[1])[:80], first_repo_frame(both)),
                     "detail": found[1][:400], "step": st.name, "tool": st.tool, "stderr_tail": err[-3000:],
                 })
+            elif st.rc == 101 and re.search(r"panic: [^\n]* at Some\(\"src/", err) and not re.search(r"panic: [^\n]* at Some\(\"/repo", err.split("panic:")[-1] if "panic:" in err else ""):
+                # the harness itself panicked (its own source files): a harness bug, never a verdict
+                inconclusive.append("%s: harness panic: %s" % (st.name, err[-300:].replace("\n", " | ")))
             elif st.rc == 3:
                 inconclusive.append("%s: harness reported an internal error: %s" % (st.name, err[-400:].replace("\n", " | ")))
             elif st.rc in (-9, 137) or "memory allocation of" in err:
@@ -539,6 +544,41 @@ def main():
     if not new_viols and not args.keep_logs:
         shutil.rmtree(logdir, ignore_errors=True)
     return 1 if new_viols else 0
+
+
+def load_check(prop):
+    modpath = os.path.join(ROOT, "checks", prop + ".py")
+    spec = importlib.util.spec_from_file_location("check_" + prop, modpath)
+    mod = importlib.util.module_from_spec(spec)
+    for d in (os.path.join(ROOT, "lib"), os.path.join(ROOT, "checks")):
+        if d not in sys.path:
+            sys.path.insert(0, d)
+    spec.loader.exec_module(mod)
+    return mod
+
+
+def setup(args):
+    """Builds everything the quick tier of every check needs (offline, from files on disk only)."""
+    tier = "quick"
+    props = sorted(f[:-3] for f in os.listdir(os.path.join(ROOT, "checks")) if re.match(r"C\d+\.py$", f))
+    if args:
+        props = [p for p in props if p in args]
+    shared = Ctx("setup", tier, 1)
+    t0 = time.time()
+    rc = 0
+    for p in props:
+        try:
+            mod = load_check(p)
+            ctx = Ctx(p, tier, 1)
+            ctx._built = shared._built
+            ctx._warmed = shared._warmed
+            steps = mod.plan(ctx)
+            log("[setup] %s: %d steps planned, build %.1fs" % (p, len(steps), ctx.build_wall))
+        except HarnessError as e:
+            log("[setup] %s: HARNESS-ERROR %s" % (p, e))
+            rc = 2
+    log("[setup] done in %.1fs" % (time.time() - t0))
+    return rc
 
 
 def replay(prop, path):
